@@ -12,6 +12,12 @@ os.close(fd)
 env = dict(os.environ)
 env.pop("PRIMAITE_VERIF", None)
 env["PYTHONPATH"] = os.path.join(repo, "src")
+# private HOME: PrimAITE writes session output under ~/primaite/<version>/sessions/<date>/<time>; two concurrent runs
+# sharing it interfere. (VERIF_BASELINE_HOME=keep uses the real one.)
+home = None
+if os.environ.get("VERIF_BASELINE_HOME") != "keep":
+    home = tempfile.mkdtemp(prefix="bl-home-", dir="/var/tmp")
+    env["HOME"] = home
 cmd = ["/venv/bin/python", "-m", "pytest", "-q", "-p", "no:cacheprovider", "--timeout=900",
        "--continue-on-collection-errors", "--junitxml=" + xmlf] + sys.argv[2:]
 p = subprocess.run(cmd, cwd=repo, env=env, stdout=subprocess.PIPE, stderr=subprocess.STDOUT, text=True)
@@ -20,6 +26,9 @@ for tc in ET.parse(xmlf).getroot().iter("testcase"):
     if not any(c.tag in ("failure", "error", "skipped") for c in tc):
         passed.add(tc.get("classname") + "::" + tc.get("name"))
 os.unlink(xmlf)
+if home:
+    import shutil
+    shutil.rmtree(home, ignore_errors=True)
 missing = [t for t in base["stable_pass"] if t not in passed]
 print("stable_pass=%d passed_now=%d missing=%d" % (len(base["stable_pass"]), len(passed), len(missing)))
 for t in missing[:40]:
